@@ -124,7 +124,7 @@ def check_lifetime_inf(eng, lv, label, soft=0, hard=0):
       f'{label}: add/use expiry seconds')
 
 
-def h_create_sa(version, ipsec, mode, alg, plen):
+def h_create_sa(version, ipsec, mode, alg, plen, outer=None):
     from symx import core
     eng = core.engine()
     T = klayout.table()
@@ -132,8 +132,9 @@ def h_create_sa(version, ipsec, mode, alg, plen):
     s = with_socket()
     src_a, src_v = sym_addr(eng, 'src_net', version)
     dst_a, dst_v = sym_addr(eng, 'dst_net', version)
-    tsrc, tsrc_v = sym_addr(eng, 'tunnel_src', version)
-    tdst, tdst_v = sym_addr(eng, 'tunnel_dst', version)
+    outer = outer or version          # family of the tunnel endpoints (outer header); the selector family is `version`
+    tsrc, tsrc_v = sym_addr(eng, 'tunnel_src', outer)
+    tdst, tdst_v = sym_addr(eng, 'tunnel_dst', outer)
     sport, dport = eng.sym_int('sport', 0, 65535), eng.sym_int('dport', 0, 65535)
     ip_proto = eng.sym_int('ip_proto', 0, 255)
     spi = eng.sym_bytes('spi', 4)
@@ -154,13 +155,14 @@ def h_create_sa(version, ipsec, mode, alg, plen):
     body = v.at(hl)
     fam = K['AF_INET'] if version == 4 else K['AF_INET6']
     check_selector(eng, body.sub('xfrm_usersa_info', 'sel'), fam, src_v, dst_v, sport, dport, ip_proto, plen[0], plen[1], version, 'NEWSA')
-    n = 4 if version == 4 else 16
+    n = 4 if outer == 4 else 16
+    ofam = K['AF_INET'] if outer == 4 else K['AF_INET6']
     idv = body.sub('xfrm_usersa_info', 'id')
-    P(core.SymBytes.lift(idv.raw('xfrm_id', 'daddr'))[:n] == packed(tdst_v, version), 'NEWSA: id.daddr is not the tunnel destination')
+    P(core.SymBytes.lift(idv.raw('xfrm_id', 'daddr'))[:n] == packed(tdst_v, outer), 'NEWSA: id.daddr is not the tunnel destination')
     P(core.SymBytes.lift(idv.raw('xfrm_id', 'spi')) == spi, 'NEWSA: id.spi')
     P(idv.u('xfrm_id', 'proto') == ipsec_proto, 'NEWSA: id.proto')
-    P(core.SymBytes.lift(body.raw('xfrm_usersa_info', 'saddr'))[:n] == packed(tsrc_v, version), 'NEWSA: saddr is not the tunnel source')
-    P(core.sym_and(body.u('xfrm_usersa_info', 'family') == fam, body.u('xfrm_usersa_info', 'mode') == mode), 'NEWSA: family / mode')
+    P(core.SymBytes.lift(body.raw('xfrm_usersa_info', 'saddr'))[:n] == packed(tsrc_v, outer), 'NEWSA: saddr is not the tunnel source')
+    P(core.sym_and(body.u('xfrm_usersa_info', 'family') == ofam, body.u('xfrm_usersa_info', 'mode') == mode), 'NEWSA: family (of the tunnel endpoints) / mode')
     lv = body.sub('xfrm_usersa_info', 'lft')
     inf = lifetime < 0
     check_lifetime_inf(eng, lv, 'NEWSA', soft=core.sym_ite_int(inf, 0, lifetime), hard=core.sym_ite_int(inf, 0, lifetime + 10))
@@ -185,7 +187,7 @@ def h_create_sa(version, ipsec, mode, alg, plen):
     return ['create_sa', 'ok']
 
 
-def h_create_policy(version, direction, mode, plen):
+def h_create_policy(version, direction, mode, plen, outer=None):
     from symx import core
     eng = core.engine()
     T = klayout.table()
@@ -193,8 +195,9 @@ def h_create_policy(version, direction, mode, plen):
     s = with_socket()
     src_a, src_v = sym_addr(eng, 'src_net', version)
     dst_a, dst_v = sym_addr(eng, 'dst_net', version)
-    tsrc, tsrc_v = sym_addr(eng, 'tunnel_src', version)
-    tdst, tdst_v = sym_addr(eng, 'tunnel_dst', version)
+    outer = outer or version          # family of the tunnel endpoints (outer header); the selector family is `version`
+    tsrc, tsrc_v = sym_addr(eng, 'tunnel_src', outer)
+    tdst, tdst_v = sym_addr(eng, 'tunnel_dst', outer)
     sport, dport = eng.sym_int('sport', 0, 65535), eng.sym_int('dport', 0, 65535)
     ip_proto = eng.sym_int('ip_proto', 0, 255)
     index = eng.sym_int('index', 0, 0xFFFFFFFF)
@@ -221,11 +224,12 @@ def h_create_policy(version, direction, mode, plen):
     if ln != 4 + T['xfrm_user_tmpl']['__size']:
         return {'class': ['create_policy'], 'violation': f'template attribute length {ln}'}
     tv = v.at(off)
-    n = 4 if version == 4 else 16
-    P(core.SymBytes.lift(tv.sub('xfrm_user_tmpl', 'id').raw('xfrm_id', 'daddr'))[:n] == packed(tdst_v, version), 'template: id.daddr is not the tunnel destination')
+    n = 4 if outer == 4 else 16
+    ofam = K['AF_INET'] if outer == 4 else K['AF_INET6']
+    P(core.SymBytes.lift(tv.sub('xfrm_user_tmpl', 'id').raw('xfrm_id', 'daddr'))[:n] == packed(tdst_v, outer), 'template: id.daddr is not the tunnel destination')
     P(tv.sub('xfrm_user_tmpl', 'id').u('xfrm_id', 'proto') == ipsec_proto, 'template: id.proto')
-    P(core.SymBytes.lift(tv.raw('xfrm_user_tmpl', 'saddr'))[:n] == packed(tsrc_v, version), 'template: saddr is not the tunnel source')
-    P(core.sym_and(tv.u('xfrm_user_tmpl', 'family') == fam, tv.u('xfrm_user_tmpl', 'mode') == mode), 'template: family / mode')
+    P(core.SymBytes.lift(tv.raw('xfrm_user_tmpl', 'saddr'))[:n] == packed(tsrc_v, outer), 'template: saddr is not the tunnel source')
+    P(core.sym_and(tv.u('xfrm_user_tmpl', 'family') == ofam, tv.u('xfrm_user_tmpl', 'mode') == mode), 'template: family (of the tunnel endpoints) / mode')
     P(core.sym_and(tv.u('xfrm_user_tmpl', 'aalgos') == 0xFFFFFFFF, tv.u('xfrm_user_tmpl', 'ealgos') == 0xFFFFFFFF, tv.u('xfrm_user_tmpl', 'calgos') == 0xFFFFFFFF),
       'template: algorithm masks')
     return ['create_policy', 'ok']
@@ -336,6 +340,8 @@ def h_acquire(version):
     P(attributes[MX.XFRMA_TMPL].family == fam, 'ACQUIRE: template family')
     for got, want, what in ((msg.id.daddr.to_ipaddr(fam), vals['id_daddr'], 'id.daddr'), (msg.saddr.to_ipaddr(fam), vals['saddr'], 'saddr'),
                             (msg.sel.saddr.to_ipaddr(fam), vals['sel_saddr'], 'sel.saddr'), (msg.sel.daddr.to_ipaddr(fam), vals['sel_daddr'], 'sel.daddr')):
+        if got.version != version:
+            return {'class': ['acquire'], 'violation': f'ACQUIRE: {what} of an IPv{version} event decoded to an IPv{got.version} address'}
         P(got._ip == want if not isinstance(got._ip, int) or not isinstance(want, int) else got._ip == want, f'ACQUIRE: {what} decoded to another address')
     P(core.sym_and(msg.sel.sport == sport, msg.sel.dport == dport, msg.sel.proto == proto, msg.sel.family == fam, msg.policy.index == index),
       'ACQUIRE: ports / protocol / family / policy index decoded to other values')
@@ -394,6 +400,13 @@ def build_instances(tier):
             for direction in (0, 1, 2):
                 inst.append(Instance(f'create_policy v{version} dir={direction} /{pl[0]},/{pl[1]}', h_create_policy, (version, direction, direction % 2, pl),
                                      native=nat(h_create_policy)))
+        # tunnel mode with protected networks and tunnel endpoints of DIFFERENT address families (6-in-4, 4-in-6)
+        outer = 6 if version == 4 else 4
+        for ipsec in ('esp', 'ah'):
+            inst.append(Instance(f'create_sa v{version} in v{outer} tunnel {ipsec}', h_create_sa, (version, ipsec, 1, 'aes256_sha256', plens[0], outer), native=nat(h_create_sa)))
+        for direction in (0, 1, 2):
+            inst.append(Instance(f'create_policy v{version} in v{outer} tunnel dir={direction}', h_create_policy, (version, direction, 1, plens[0], outer),
+                                 native=nat(h_create_policy)))
         inst.append(Instance(f'delete_sa + flush v{version}', h_delete_flush, (version,), native=nat(h_delete_flush)))
         inst.append(Instance(f'sequence of requests v{version}', h_sequence, (version,)))
         inst.append(Instance(f'parse ACQUIRE v{version}', h_acquire, (version,), native=nat(h_acquire)))
